@@ -90,6 +90,14 @@ def cases():
       4, [B, B, ("E", "SE"), ("E", "SE")], kind="arity_bounded", fn=w)
     C("nest/with-in-with-body", lambda m1, m2, b: E(S("with"), List([S("a"), m1]), E(S("with"), List([S("c"), m2]), b)), 3, B)
 
+    # children that leave their value in a result temporary (a rule may look at Result.temp_variables of a child)
+    ET = ("E", "T")
+    C("try/temp-result-children", lambda b, t, h, o, fi: E(S("try"), b, X(t)(h), E(S("else"), o), E(S("finally"), fi)), 5,
+      [ET, ("E",), ET, ET, ET], fn=f)
+    C("try/temp-result-body-finally", lambda b, fi: E(S("try"), b, E(S("finally"), fi)), 2, [ET, ET], fn=f)
+    C("with/temp-result-children", lambda m, b: E(S("with"), List([S("a"), m]), b), 2, [ET, ET], fn=w)
+    C("with/2-temp-result-children", lambda m1, m2, b: E(S("with"), List([S("a"), m1, S("c"), m2]), b), 3, [ET, ET, ET], kind="arity_bounded", fn=w)
+
     r = "hy/core/result_macros.py::compile_raise_expression"
     C("raise/bare", lambda: E(S("raise")), 0, B, fn=r)
     C("raise/x", lambda x: E(S("raise"), x), 1, B, fn=r)
